@@ -304,6 +304,14 @@ func extVxMonitor(fr *frame, args []value) value {
 	if on {
 		fr.i.ex.StoreMon = newStoreMonitor()
 	} else {
+		if m := fr.i.ex.StoreMon; m != nil {
+			fr.i.ex.MonTotals["stores_monitored"] += m.Stores
+			fr.i.ex.MonTotals["stores_into_shared_memory_synchronised"] += m.SharedStores
+			fr.i.ex.MonTotals["atomic_stores"] += m.atomicStores
+			if len(m.regions) > fr.i.ex.MonTotals["shared_regions_at_mark"] {
+				fr.i.ex.MonTotals["shared_regions_at_mark"] = len(m.regions)
+			}
+		}
 		fr.i.ex.StoreMon = nil
 	}
 	return nil
